@@ -194,6 +194,7 @@ struct Endpoint
 };
 
 static std::map<int, Endpoint*> g_eps;
+static std::map<std::pair<int, int>, long> g_maxdelivered; // (dst, src) -> highest outbox index of src handed to dst so far
 
 static void rec_out(Endpoint* ep, const void* data, int len)
 {
@@ -435,6 +436,7 @@ static void destroy_all()
 	}
 	g_onaccept.clear();
 	g_routes.clear();
+	g_maxdelivered.clear();
 }
 
 static void install_config()
@@ -676,6 +678,23 @@ int main(int argc, char** argv)
 			if (HConn* c = get_conn(id))
 				emit("ret %d %d", c->get_fd()->bClose ? 1 : 0, (int)c->get_fd()->CloseReason);
 		}
+		else if (op == "rpl") // replay: datagram (highest index delivered so far) - k of src, to dst again
+		{
+			int dst, src;
+			long k;
+			is >> dst >> src >> k;
+			HConn* c = get_conn(dst);
+			Endpoint* s = get_ep(src);
+			auto it = g_maxdelivered.find(std::make_pair(dst, src));
+			long idx = (c && s && it != g_maxdelivered.end()) ? it->second - k : -1;
+			if (idx < 0 || idx >= (long)s->outbox.size())
+				emit("ret none");
+			else
+			{
+				Bytes d = s->outbox[idx];
+				deliver_conn(c, d, false);
+			}
+		}
 		else if (op == "peek" || op == "dlv" || op == "wdlv" || op == "mut" || op == "wmut")
 		{
 			int dst, src;
@@ -708,7 +727,15 @@ int main(int argc, char** argv)
 					free(p);
 				}
 				else
+				{
+					if (kind.empty())
+					{
+						long& m = g_maxdelivered.emplace(std::make_pair(dst, src), -1).first->second;
+						if (idx > m)
+							m = idx;
+					}
 					deliver_conn(c, d, op[0] == 'w');
+				}
 			}
 		}
 		else if (op == "dln" || op == "wdln")
@@ -721,6 +748,9 @@ int main(int argc, char** argv)
 				emit("ret none");
 			else
 			{
+				long& m = g_maxdelivered.emplace(std::make_pair(dst, src), -1).first->second;
+				if ((long)s->cur > m)
+					m = (long)s->cur;
 				Bytes d = s->outbox[s->cur++];
 				deliver_conn(c, d, op[0] == 'w');
 			}
@@ -736,6 +766,9 @@ int main(int argc, char** argv)
 				size_t end = s->outbox.size(); // datagrams emitted during delivery wait for the next dla
 				while (s->cur < end)
 				{
+					long& m = g_maxdelivered.emplace(std::make_pair(dst, src), -1).first->second;
+					if ((long)s->cur > m)
+						m = (long)s->cur;
 					Bytes d = s->outbox[s->cur++];
 					deliver_conn(c, d, op[0] == 'w');
 				}
